@@ -16,7 +16,7 @@ import numpy as np
 
 from . import determinism, util
 from .cases import OPS, is_lazy
-from .graphsim import InjectedFault, SimScheduler, under
+from .graphsim import InjectedFault, SimScheduler, embedded_arrays, under
 
 SENTINEL = 123
 
@@ -58,8 +58,13 @@ class PoolRaster:
             ch = chunks or tuple((s,) for s in data.shape)
             ch = tuple(tuple(int(c) for c in ax) for ax in ch)
             payload = da.from_array(arr, chunks=ch)
+            # the chunk arrays the graph carries are the caller-owned memory of a Dask raster
+            self.embedded = embedded_arrays(payload)
+            self.embedded_digest = [_buf_digest(a) for _, a in self.embedded]
         else:
             payload = arr
+            self.embedded = []
+            self.embedded_digest = []
         coords = {k: (k, np.array(v, copy=True)) for k, v in spec.get("coords", {}).items()}
         for k, v in spec.get("scalar_coords", {}).items():
             coords[k] = v
@@ -83,6 +88,10 @@ class PoolRaster:
                 out.append(("backend_changed", "dask -> numpy"))
         want = np.asarray(spec["data"])
         if not allow_inplace:
+            for (kname, a), d0 in zip(self.embedded, self.embedded_digest):
+                if _buf_digest(a) != d0:
+                    out.append(("values_modified", {"dask_chunk_in_graph": kname}))
+                    break
             if _buf_digest(self.base) != self.base_digest:
                 idx = util.first_diff(self.arr if self.arr.shape == want.shape else self.base, want) \
                     if self.arr.shape == want.shape else None
@@ -303,7 +312,8 @@ def run_call(entry, rasters, sched_seed=0, policy=("dfs", None)):
                     determinism.reseed(util.derive_seed(sched_seed, "uuid"))
                     sim = SimScheduler(random.Random(util.derive_seed(sched_seed, "sched")),
                                        policy=policy[0], policy_arg=policy[1],
-                                       watch=[(r.rid, r.base) for r in rasters])
+                                       watch=[(r.rid, r.base) for r in rasters]
+                                       + [(r.rid, a) for r in rasters for _, a in r.embedded])
                     o.sim = sim
                     with under(sim):
                         o.out = OPS[entry["op"]](args, entry["params"])
